@@ -1989,6 +1989,14 @@ func (ti *typeInfo) init(x []structFieldInfo, n int) {
 // If using transient for a type with a pointer, there is the potential for data corruption
 // when GC tries to follow a "transient" pointer which may become a non-pointer soon after.
 func isCanTransient(t reflect.Type, inclStrSlice bool) (v bool) {
+	// a type decoded by user code (Selfer or a Binary/Text/JSON unmarshaler, at any level) is never
+	// transient: that code may use the same Decoder to decode other containers, which would
+	// re-use the (per-decoder) transient scratch values this value or its map key lives in.
+	for _, it := range [...]reflect.Type{selferTyp, binaryUnmarshalerTyp, textUnmarshalerTyp, jsonUnmarshalerTyp} {
+		if b1, b2 := implIntf(t, it); b1 || b2 {
+			return false
+		}
+	}
 	k := t.Kind()
 	bset := &numBoolBitset
 	if inclStrSlice {
